@@ -279,6 +279,16 @@ pub fn run(_seed: u64, _thorough: bool, rep: &mut Report) {
                 }
                 out = format!("{out} probe={code}");
             }
+            if *act == Act::Poll {
+                // the property itself: a poll that ran to completion against a reachable node must leave
+                // the tower flagged reachable (it is the only thing that ever wakes the waiters)
+                let n = run.live.as_ref().unwrap().sys.node.0.lock().unwrap();
+                let node_up = !n.down && n.down_after.is_none();
+                drop(n);
+                if node_up && out.starts_with("flag=0") && out.contains("chain=idle") {
+                    rep.fail("C12", "flag_not_restored_by_successful_poll", &format!("scenario {name}: the node is reachable and poll_best_tip returned, but the tower is still flagged unreachable ({out}): waiters are never woken, the API answers 503"));
+                }
+            }
             rep.line(&format!("ou {}", act.token()), &out);
             rep.count(&format!("act:{}", act.token().split(' ').next().unwrap()));
         }
